@@ -116,14 +116,16 @@ def kernel_cases(tier, seed):
     t16 = [flat16] + [rt(16) for _ in range(150)]
     t64 = [(0,) * 64] + [rt(64) for _ in range(6)]
     S2 = alphabet({0: 1, 1: 2, 3: 1, 8: 1})
+    S2s = alphabet({0: 1, 1: 2, 3: 1})
     S8 = alphabet({0: 1, 1: 2, 5: 1, 16: 1})
-    deep4 = fixed4
+    deep4 = fixed4[:2]
+    st4 = fixed4 + rng.sample([t for t in all4 if t not in fixed4], 24)
     return MULTI((0, 2, 4, 2, 0, 2, 4, 0), quick=False) + [
-        dict(M=4, d=1, alpha=A4, tabs=None, steptabs=all4, bs=[1, 2], maxdraws=2),
+        dict(M=4, d=1, alpha=A4, tabs=None, steptabs=st4, bs=[1, 2], maxdraws=2),
         dict(M=4, d=1, alpha=A4, tabs=deep4, steptabs=deep4, bs=[1, 2], maxdraws=3),
-        dict(M=8, d=1, alpha=A8full, tabs=t8, steptabs=t8[1:3], bs=[1, 2], maxdraws=2),
+        dict(M=8, d=1, alpha=A8full, tabs=t8, steptabs=t8[1:2], bs=[1, 2], maxdraws=2),
         dict(M=4, d=2, alpha=S2, tabs=t16, steptabs=[], bs=[1, 2], maxdraws=1),
-        dict(M=4, d=2, alpha=S2, tabs=t16[1:2], steptabs=t16[1:2], bs=[1], maxdraws=2),
+        dict(M=4, d=2, alpha=S2s, tabs=t16[1:2], steptabs=t16[1:2], bs=[1], maxdraws=2),
         dict(M=8, d=2, alpha=S8, tabs=t64, steptabs=[], bs=[2], maxdraws=1),
     ]
 
@@ -544,8 +546,7 @@ def tpcn_modes(tier):
         m += [dict(d=1, nu=5, m=(5,), L=((3,),)), dict(d=2, nu=2, m=(2, 6), L=((1, 0), (2, 3))),
               dict(d=2, nu=6, m=(4, 3), L=((3, 0), (-1, 2)))]
         m += [dict(d=1, nu=100, m=(4,), L=((1,),)), dict(d=1, nu=400, m=(5,), L=((2,),)), dict(d=1, nu=10 ** 4, m=(4,), L=((1,),)),
-              dict(d=2, nu=100, m=(3, 5), L=((2, 0), (1, 1))), dict(d=2, nu=102, m=(4, 4), L=((1, 0), (1, 1))),
-              dict(d=2, nu=10 ** 4, m=(4, 4), L=((2, 0), (1, 1))), dict(d=2, nu=10 ** 6, m=(3, 5), L=((1, 0), (1, 1)))]
+              dict(d=2, nu=102, m=(3, 5), L=((2, 0), (1, 1))), dict(d=2, nu=10 ** 6, m=(3, 5), L=((1, 0), (1, 1)))]
     return m
 
 
